@@ -4,7 +4,7 @@
 //! A program is a typed AST printed twice: as Roto source and as a token
 //! stream for `c02 spec …` of the Lean driver (`RotoV.Model.ValueSpec`).
 use crate::types::*;
-use roto::{FileTree, NoCtx, Runtime, library, RotoString, Val};
+use roto::{FileTree, List, NoCtx, Runtime, library, RotoString, Val};
 use rotov_harness::driver::{Driver, hex};
 use rotov_harness::{Prng, Report};
 use serde_json::{Value, json};
@@ -57,19 +57,36 @@ impl Drop for Big {
 #[derive(Clone, Copy, Debug, PartialEq)]
 pub struct Pt(u8, u8, u8);
 
-/// Fill the stack below the caller with one byte value. Bytes of a value that
-/// are not part of it (padding, the storage of the variants that are not
-/// live) are never written by a script: they keep what the stack held before.
-/// A script that calls `paint_stack(a)`, builds a value inside a callee, calls
-/// `paint_stack(b)` and builds the same value again holds two values that are
-/// equal as values and differ in every such byte — deterministically.
+/// Fill the stack below the caller with known garbage: byte `k` below the
+/// caller's frame gets `hash(k) ^ v`. Bytes of a value that are not part of it
+/// (padding, the storage of the variants that are not live) are never written
+/// by a script: they keep what the stack held before. The harness paints
+/// before every call of `main`, so two values built in different places of
+/// `main`'s frame differ in those bytes; a script that calls `paint_stack(a)`,
+/// builds a value inside a callee, calls `paint_stack(b)` (a ≠ b) and builds
+/// the same value again in the same callee holds two values that are equal as
+/// values and differ in EVERY such byte — deterministically.
 #[inline(never)]
 pub fn paint(v: u8) {
-    let mut buf = [std::mem::MaybeUninit::<u8>::uninit(); 24 * 1024];
-    for b in buf.iter_mut() {
-        unsafe { std::ptr::write_volatile(b.as_mut_ptr(), v) };
+    const N: usize = 64 * 1024;
+    let mut buf = [std::mem::MaybeUninit::<u8>::uninit(); N];
+    for (i, b) in buf.iter_mut().enumerate() {
+        let k = (N - i) as u32;
+        let g = (k.wrapping_mul(0x9E37_79B1) >> 24) as u8;
+        unsafe { std::ptr::write_volatile(b.as_mut_ptr(), g ^ v) };
     }
     std::hint::black_box(&mut buf);
+}
+
+/// side channel of the representation battery (never emitted, so never part
+/// of the expected output): pairs of lists a script is about to compare whose
+/// element buffers hold other / the same bytes (hook `element_bytes`)
+pub static BYTES_DIFFER: std::sync::atomic::AtomicU64 = std::sync::atomic::AtomicU64::new(0);
+pub static BYTES_SAME: std::sync::atomic::AtomicU64 = std::sync::atomic::AtomicU64::new(0);
+fn note_bytes<T: roto::Value>(a: &List<T>, b: &List<T>) {
+    use roto::verif_hooks::c02::element_bytes;
+    let c = if element_bytes(a) != element_bytes(b) { &BYTES_DIFFER } else { &BYTES_SAME };
+    c.fetch_add(1, std::sync::atomic::Ordering::SeqCst);
 }
 
 pub fn runtime() -> Runtime<NoCtx> {
@@ -134,6 +151,14 @@ pub fn runtime() -> Runtime<NoCtx> {
         fn emit_len(v: u64) { log(format!("n:{v}")) }
         /// fill the unused stack with one byte value (see `paint`)
         fn paint_stack(v: u8) { paint(v) }
+        /// measure (side channel): do the two element buffers hold the same bytes?
+        fn note_ou32(a: List<Option<u32>>, b: List<Option<u32>>) { note_bytes(&a, &b) }
+        /// measure (side channel)
+        fn note_ou8(a: List<Option<u8>>, b: List<Option<u8>>) { note_bytes(&a, &b) }
+        /// measure (side channel)
+        fn note_oi64(a: List<Option<i64>>, b: List<Option<i64>>) { note_bytes(&a, &b) }
+        /// measure (side channel)
+        fn note_f64(a: List<f64>, b: List<f64>) { note_bytes(&a, &b) }
     })
     .expect("runtime")
 }
@@ -238,6 +263,8 @@ pub enum S {
     If(E, Vec<S>, Vec<S>),
     /// `paint_stack(n);`
     Paint(u8),
+    /// `note_<sfx>(a, b);` — side channel, no observable effect
+    Note(&'static str, usize, usize),
 }
 
 pub struct Case {
@@ -486,6 +513,10 @@ impl<'a> Gen<'a> {
                     // equal to `0.0` as a value, another bit pattern
                     return E::OpaqueK("-0.0", "-0", "0");
                 }
+                if (!self.closed || self.closed_args) && self.p.chance(1, 10) {
+                    // equal to nothing, itself included, whatever its bits
+                    return E::OpaqueK("0.0 / 0.0", "NaN", "nan");
+                }
                 let (a, b) = *self.p.pick(&[("1.5", "1.5"), ("0.0", "0"), ("0.0", "0"), ("-2.25", "-2.25"), ("1000000.0", "1000000")]);
                 E::Opaque(a, b)
             }
@@ -690,12 +721,17 @@ impl<'a> Gen<'a> {
         let lann = lt.src(&self.env);
         let paints = [(0x55u8, 0xAAu8), (0x00, 0xFF), (0xFF, 0x00), (0x01, 0x80), (0xAA, 0x55)];
         let (pa, pb) = *self.p.pick(&paints);
+        // in a callee over a repainted stack, or in two places of `main`'s own frame
+        let inline = self.p.chance(1, 3);
         let va = self.new_var(t.clone(), None);
         out.push(S::Paint(pa));
-        out.push(S::Let(va, Some(ann.clone()), E::Make(ka, Box::new(e.clone()))));
+        out.push(S::Let(va, Some(ann.clone()), if inline { e.clone() } else { E::Make(ka, Box::new(e.clone())) }));
         let vb = self.new_var(t.clone(), None);
         out.push(S::Paint(pb));
-        out.push(S::Let(vb, Some(ann.clone()), E::Make(kb, Box::new(e2.clone()))));
+        out.push(S::Let(vb, Some(ann.clone()), if inline { e2.clone() } else { E::Make(kb, Box::new(e2.clone())) }));
+        if inline {
+            self.kinds.insert("eq-same-value-built-twice");
+        }
         let eq = |neg: bool, a: E, b: E| S::Emit(E::Eq(neg, Box::new(a), Box::new(b)), T::Bool);
         out.push(eq(false, E::Var(va), E::Var(vb)));
         out.push(eq(true, E::Var(vb), E::Var(va)));
@@ -720,6 +756,17 @@ impl<'a> Gen<'a> {
                 out.push(S::Push(E::Var(la), E::Var(va)));
                 out.push(S::Push(E::Var(lb), E::Var(vb)));
             }
+        }
+        // where the host can receive the lists: are their bytes really different?
+        let sfx = match t {
+            T::Opt(x) if **x == T::Int(false, 32) => Some("ou32"),
+            T::Opt(x) if **x == T::Int(false, 8) => Some("ou8"),
+            T::Opt(x) if **x == T::Int(true, 64) => Some("oi64"),
+            T::F64 => Some("f64"),
+            _ => None,
+        };
+        if let Some(sfx) = sfx {
+            out.push(S::Note(sfx, la, lb));
         }
         out.push(eq(false, E::Var(la), E::Var(lb)));
         out.push(eq(true, E::Var(lb), E::Var(la)));
@@ -1412,6 +1459,7 @@ impl Src<'_> {
                 S::Push(l, e) => *out += &format!("{ind}{}.push({});\n", self.e(l, None), self.e(e, None)),
                 S::Swap(l, i, j) => *out += &format!("{ind}{}.swap({i}, {j});\n", self.e(l, None)),
                 S::Paint(v) => *out += &format!("{ind}paint_stack({v});\n"),
+                S::Note(sfx, a, b) => *out += &format!("{ind}note_{sfx}({}, {});\n", vname(*a), vname(*b)),
                 S::Emit(e, t) => {
                     let es = self.e(e, Some(t));
                     // bind once so that the emitted expression is evaluated once
@@ -1580,7 +1628,7 @@ fn spec_block(ss: &[S], args: &Args, out: &mut Vec<String>) {
                 spec_e(l, args, out);
                 out.extend([i.to_string(), j.to_string()]);
             }
-            S::Paint(_) => out.push("nop".into()),
+            S::Paint(_) | S::Note(..) => out.push("nop".into()),
             S::Emit(e, _) => {
                 out.push("emit".into());
                 spec_e(e, args, out);
@@ -1939,11 +1987,20 @@ fn run_case(script: &str, specs: &[String], args: &[Args], sig: &str, rt: &Runti
         }
     };
     let mut all_ok = true;
+    let mut run_no = 0usize;
     for (a, sp) in args.iter().zip(specs) {
         LOG.lock().unwrap().clear();
         let live_before = LIVE_BIG.load(std::sync::atomic::Ordering::SeqCst);
+        // what `main`'s frame holds before `main` writes to it
+        paint([0x00u8, 0x5A, 0xC3][run_no % 3]);
+        run_no += 1;
         let r = std::panic::catch_unwind(std::panic::AssertUnwindSafe(|| f.call(a.0, a.1, a.2, a.3, a.4, a.5, a.6)));
         let got = LOG.lock().unwrap().join(",");
+        for (c, k) in [(&BYTES_DIFFER, "differ"), (&BYTES_SAME, "same")] {
+            for _ in 0..c.swap(0, std::sync::atomic::Ordering::SeqCst) {
+                rep.hist("equal_values_compared_as_list_elements_bytes", k);
+            }
+        }
         let live_after = LIVE_BIG.load(std::sync::atomic::Ordering::SeqCst);
         let bad = BAD_BIG.swap(0, std::sync::atomic::Ordering::SeqCst);
         // (a value pushed into a list that lives in a `const` legitimately outlives the call)
